@@ -886,7 +886,28 @@ def rule_unlinked(ctx):
 PARK_CALLS = ("nni_list_append", "nni_aio_list_append", "nni_list_prepend")
 
 
-def drains(prog, f):
+def _drained_params(prog, h):
+    """indices of the list parameters that h empties, completing every element with NNG_ECLOSED"""
+    from .. import guards as G
+    names = [p_["n"] for p_ in h.params]
+    out = set()
+    fin = set()
+    for c in h.calls(("nni_aio_finish_error", "nni_aio_abort", "nni_aio_finish")):
+        a = [h.expand(x) if x is not None else None for x in c.node["args"]]
+        if len(a) > 1 and a[1] is not None and a[1].get("k") == "enum" and a[1].get("n") == "NNG_ECLOSED" and \
+                a[0] is not None and a[0].get("k") == "var":
+            fin.add(a[0]["n"])
+    for v in fin:
+        for _, rhs in G.var_defs(h, v):
+            for m in walk(rhs) if rhs is not None else ():
+                if m.get("k") == "call" and m.get("fn") == "nni_list_first" and m.get("args"):
+                    a0 = h.expand(m["args"][0])
+                    if a0 is not None and a0.get("k") == "var" and a0["n"] in names:
+                        out.add(names.index(a0["n"]))
+    return out
+
+
+def drains(prog, f, _depth=0):
     """(lists, fields, flags) of a function that completes parked operations with NNG_ECLOSED: the aio lists it empties, the
     parked-aio pointer fields it clears, and the boolean fields it sets (the 'closed' marks a later submitter could test)"""
     lists, fields, flags = set(), set(), set()
@@ -895,10 +916,26 @@ def drains(prog, f):
         a = [f.expand(x) if x is not None else None for x in c.node["args"]]
         if len(a) > 1 and a[1] is not None and a[1].get("k") == "enum" and a[1].get("n") == "NNG_ECLOSED":
             closed_fin.append(c)
+    from .. import guards as G
+    # a drain delegated to a file-local helper that empties the list it is given (http_abort_queue(&conn->wrq))
+    if _depth == 0:
+        for c in f.calls():
+            h = prog.resolve(f, c.node["fn"]) if c.node.get("fn") else None
+            if h is None or h is f or h.cfg_failed or not h.static or h.file != f.file:
+                continue
+            for idx in _drained_params(prog, h):
+                if idx < len(c.node["args"]) and c.node["args"][idx] is not None:
+                    lf = last_field(f.expand(c.node["args"][idx]))
+                    if lf:
+                        lists.add(lf)
     if not closed_fin:
+        if lists:
+            for t in f.assigns():
+                l = t.node["lhs"]
+                if l.get("k") == "mem" and (l.get("t") or "") in ("bool", "_Bool") and const_of(f.expand(t.node["rhs"])) not in (None, 0):
+                    flags.add(last_field(l))
         return lists, fields, flags
     # a drain made under `if (x->closed)`: that flag is the mark
-    from .. import guards as G
     for bid, k, atom, val in G.edge_facts(f):
         if val and atom.get("k") == "mem" and (atom.get("t") or "") in ("bool", "_Bool") and any(
                 G.dominated(f, (c.b, c.i), {bid: k}) for c in closed_fin):
